@@ -147,3 +147,123 @@ pub fn partition_big(args: &Args) {
     }
     out.flush();
 }
+
+// --------------------------------------------------------------------------------------------
+// C05: filesystem writer confinement
+
+fn xml_escape(s: &str) -> String {
+    s.replace('&', "&amp;").replace('<', "&lt;").replace('>', "&gt;").replace('"', "&quot;")
+}
+
+fn walk(dir: &std::path::Path, base: &std::path::Path, out: &mut std::collections::BTreeMap<String, String>) {
+    if let Ok(rd) = std::fs::read_dir(dir) {
+        for e in rd.flatten() {
+            let p = e.path();
+            let rel = p.strip_prefix(base).unwrap().to_string_lossy().to_string();
+            let md = match std::fs::symlink_metadata(&p) {
+                Ok(m) => m,
+                Err(_) => continue,
+            };
+            if md.is_dir() {
+                out.insert(rel.clone() + "/", "dir".to_string());
+                walk(&p, base, out);
+            } else {
+                let data = std::fs::read(&p).unwrap_or_default();
+                out.insert(rel, dg_full(&data));
+            }
+        }
+    }
+}
+
+pub fn pathfs(args: &Args) {
+    use flute::receiver::writer::ObjectWriterFSBuilder;
+    use flute::receiver::MultiReceiver;
+    use std::rc::Rc;
+    let input = std::fs::read_to_string(args.str("in", "-")).expect("input");
+    let mut out = Out::new(args.get("out"));
+    let content: Vec<u8> = b"PAYLOAD!".to_vec();
+    let md5_ok = {
+        // base64 of md5 via flute's own sender (cheap way: compute here)
+        let d = md5::compute(&content);
+        let tbl = b"ABCDEFGHIJKLMNOPQRSTUVWXYZabcdefghijklmnopqrstuvwxyz0123456789+/";
+        let mut s = String::new();
+        for ch in d.0.chunks(3) {
+            let b = [ch[0], *ch.get(1).unwrap_or(&0), *ch.get(2).unwrap_or(&0)];
+            let n = ((b[0] as u32) << 16) | ((b[1] as u32) << 8) | b[2] as u32;
+            s.push(tbl[(n >> 18) as usize & 63] as char);
+            s.push(tbl[(n >> 12) as usize & 63] as char);
+            s.push(if ch.len() > 1 { tbl[(n >> 6) as usize & 63] as char } else { '=' });
+            s.push(if ch.len() > 2 { tbl[n as usize & 63] as char } else { '=' });
+        }
+        s
+    };
+    let oti = flute::core::Oti::new_no_code(4, 2);
+    let big = flute::core::Oti::new_no_code(4096, 8);
+    for line in input.lines() {
+        if line.trim().is_empty() {
+            continue;
+        }
+        let b: serde_json::Value = serde_json::from_str(line).expect("json");
+        let jail = tempfile::tempdir().expect("tempdir");
+        let root = jail.path().join("r0").join("r1").join("root");
+        let dest = root.join("a").join("b").join("dest");
+        std::fs::create_dir_all(&dest).unwrap();
+        for (i, d) in [jail.path().to_path_buf(), jail.path().join("r0"), jail.path().join("r0").join("r1"), root.clone(), root.join("a"), root.join("a").join("b")].iter().enumerate() {
+            std::fs::write(d.join("canary"), format!("canary{}", i)).unwrap();
+        }
+        std::fs::create_dir_all(root.join("outside")).unwrap();
+        std::fs::write(root.join("outside").join("victim"), "victim").unwrap();
+        let rootstr = root.to_string_lossy().to_string();
+        let loc = js(&b, "loc").replace("@ROOT@", rootstr.trim_start_matches('/'));
+        let outcome = jopt_s(&b, "outcome", "complete").to_string();
+        let mut before = std::collections::BTreeMap::new();
+        walk(jail.path(), jail.path(), &mut before);
+        let xml = format!("<?xml version=\"1.0\" encoding=\"UTF-8\"?><FDT-Instance xmlns=\"urn:IETF:metadata:2005:FLUTE:FDT\" Expires=\"4200000000\" FEC-OTI-FEC-Encoding-ID=\"0\" FEC-OTI-Maximum-Source-Block-Length=\"2\" FEC-OTI-Encoding-Symbol-Length=\"4\"><File Content-Location=\"{}\" TOI=\"1\" Content-Length=\"8\" Transfer-Length=\"8\" Content-MD5=\"{}\"/></FDT-Instance>",
+                          xml_escape(&loc), if outcome == "error" { "AAAAAAAAAAAAAAAAAAAAAA==" } else { &md5_ok });
+        let mk = |toi: u128, fdt_id: Option<u32>, sbn: u32, esi: u32, bflag: bool, tl: u64, payload: &[u8], o: &flute::core::Oti| {
+            let f = verif::PktFields { cci: 0, tsi: 1, toi, fdt_id, sbn, esi, source_block_length: 2, cenc: flute::core::lct::Cenc::Null,
+                inband_cenc: false, close_object: bflag, sender_current_time: false, transfer_length: tl, payload: payload.to_vec() };
+            verif::build_alc_pkt(o, &f, flute::sender::Profile::RFC6726, base_time())
+        };
+        let mut pkts = vec![mk(0, Some(1), 0, 0, false, xml.len() as u64, xml.as_bytes(), &big)];
+        match outcome.as_str() {
+            "interrupted" => pkts.push(mk(1, None, 0, 0, true, 8, &content[0..4], &oti)),
+            _ => {
+                pkts.push(mk(1, None, 0, 0, false, 8, &content[0..4], &oti));
+                pkts.push(mk(1, None, 0, 1, true, 8, &content[4..8], &oti));
+            }
+        }
+        let res = catch(|| {
+            let builder = Rc::new(ObjectWriterFSBuilder::new(&dest, true).expect("builder"));
+            let mut rx = MultiReceiver::new(builder, None, false);
+            let ep = flute::core::UDPEndpoint::new(None, "224.0.0.1".to_string(), 3400);
+            let mut rs = Vec::new();
+            for p in &pkts {
+                rs.push(match rx.push(&ep, p, base_time()) { Ok(()) => "ok", Err(_) => "err" });
+            }
+            let ne = rx.nb_objects_error();
+            drop(rx);
+            (rs, ne)
+        });
+        let mut after = std::collections::BTreeMap::new();
+        walk(jail.path(), jail.path(), &mut after);
+        let mut touched: Vec<Vec<String>> = Vec::new();
+        let keys: std::collections::BTreeSet<&String> = before.keys().chain(after.keys()).collect();
+        for k in keys {
+            if before.get(k) != after.get(k) {
+                touched.push(k.trim_end_matches('/').split('/').map(|s| s.to_string()).collect());
+            }
+        }
+        let destc: Vec<String> = dest.strip_prefix(jail.path()).unwrap().to_string_lossy().split('/').map(|s| s.to_string()).collect();
+        let files: Vec<serde_json::Value> = after.iter().filter(|(k, v)| !before.contains_key(*k) && *v != "dir")
+            .map(|(k, v)| json!({"p": k.split('/').collect::<Vec<_>>(), "dg": v})).collect();
+        let (rs, ne, pan) = match res {
+            Ok((rs, ne)) => (json!(rs), ne as i64, "".to_string()),
+            Err(m) => (json!([]), -1, m),
+        };
+        out.emit(&json!({"ev":"fs","beh":b.get("beh").cloned().unwrap_or(json!(-1)),"pfx":b.get("pfx").cloned().unwrap_or(json!(0)),
+            "segs":b.get("segs").cloned().unwrap_or(json!([])),"outcome":outcome,"touched":touched,"dest":destc,"newfiles":files,
+            "res":rs,"ne":ne,"panic":pan,"dg":dg_full(&content)}));
+    }
+    out.flush();
+}
